@@ -590,6 +590,12 @@ impl File {
         Ok(())
     }
 
+    /// Mark the file as needing a (re)build without it counting as having
+    /// failed during this run.
+    pub fn mark_unfinished(&mut self) {
+        self.failed_runid = Some(0);
+    }
+
     pub fn set_checked(&mut self, v: &Env) {
         self.checked_runid = v.runid;
     }
